@@ -624,7 +624,8 @@ class InteractingNetworks(Network):
             subnetwork
         :return int: the total cross degree.
         """
-        return np.mean(self.cross_degree(node_list1, node_list2))
+        return np.mean(InteractingNetworks.cross_degree(
+            self, node_list1, node_list2))
 
     def number_internal_links(self, node_list):
         """
@@ -671,7 +672,8 @@ class InteractingNetworks(Network):
         """
 
         N2 = len(node_list2)
-        return self.cross_degree(node_list1, node_list2) / N2
+        return InteractingNetworks.cross_degree(
+            self, node_list1, node_list2) / N2
 
     def cross_link_density(self, node_list1, node_list2):
         """
@@ -882,7 +884,8 @@ class InteractingNetworks(Network):
             subnetwork
         :return float: the cross transitivity for a pair of subnetworks.
         """
-        cross_degree = self.cross_degree(node_list1, node_list2)
+        cross_degree = InteractingNetworks.cross_degree(
+            self, node_list1, node_list2)
 
         #  Get sparse adjacency matrix
         A = self.sp_A[node_list1+node_list2, :][:, node_list1+node_list2]
@@ -1035,8 +1038,8 @@ class InteractingNetworks(Network):
             as the links' length. If None, links have length 1. (Default: None)
         :return float: the average cross closeness.
         """
-        return np.mean(self.cross_closeness(node_list1, node_list2,
-                                            link_attribute))
+        return np.mean(InteractingNetworks.cross_closeness(
+            self, node_list1, node_list2, link_attribute))
 
     def global_efficiency(self, node_list1, node_list2, link_attribute=None):
         """
@@ -1311,7 +1314,8 @@ class InteractingNetworks(Network):
         :return: the cross local clustering coefficient.
         """
         #  Get cross degree sequence
-        cross_degree = self.cross_degree(node_list1, node_list2)
+        cross_degree = InteractingNetworks.cross_degree(
+            self, node_list1, node_list2)
         #  Get full adjacency matrix
         A = self.sp_A[node_list1+node_list2, :][:, node_list1+node_list2]
         #  Get layer sizes
@@ -1514,8 +1518,8 @@ class InteractingNetworks(Network):
         :rtype: 1D arrays [index]
         :return: the local efficiency sequence.
         """
-        path_lengths = self.cross_path_lengths(node_list1, node_list2,
-                                               link_attribute)
+        path_lengths = InteractingNetworks.cross_path_lengths(
+            self, node_list1, node_list2, link_attribute)
         return np.mean(1/path_lengths, axis=1)
 
     def nsi_cross_degree(self, node_list1, node_list2):
